@@ -6,7 +6,7 @@
    harness on the real code): the docstring of Generator.max_num_ems says "Any created ems that do not fit in the buffer will be
    ignored", but jnp.argmin(ems_mask) is 0 when every slot is taken, so a new EMS OVERWRITES slot 0 instead of being dropped
    (harmless for the constraints: C06 holds for it). *)
-Require Import JV.Base.Prelude JV.Base.JaxIndex JV.Base.Codec JV.Base.TimeStep JV.Model.BinPack JV.Proofs.BinPack_lib JV.Proofs.BinPack JV.Proofs.BinPack_obs.
+Require Import JV.Base.Prelude JV.Base.JaxIndex JV.Base.Codec JV.Base.TimeStep JV.Model.BinPack JV.Proofs.BinPack_lib JV.Proofs.BinPack JV.Proofs.BinPack_obs JV.Proofs.BinPack_ems.
 (* a concrete instance: container 4x2x2, two items 2x2x2 and one 3x2x2, buffer of 4 EMSs, 2 observed *)
 Definition ex_c := make_container 4 2 2.
 Definition ex_items := [mkIt 2 2 2; mkIt 2 2 2; mkIt 3 2 2].
@@ -22,13 +22,30 @@ Theorem C09_BinPack_legal_step_fields n m s k a :
   ems s' = fst (update_ems (ems s) (ems_mask s) (new_item_space s k a)) /\
   ems_mask s' = snd (update_ems (ems s) (ems_mask s) (new_item_space s k a)).
 Proof. exact (pack_item_fields n m s k a). Qed.
+(* after a legal step every ACTIVE EMS of the new state is an old active EMS untouched by the new item, or a non-empty half-space
+   cut (hyper d item e) of an old active EMS e that the new item intersects; see C06_BinPack_update_ems_origin for what a cut is *)
+Theorem C09_BinPack_new_ems_origin n m s k a j :
+  shape n m s -> 0 <= a < n -> 0 <= k < m ->
+  emask_at (pack_item s k a) j = true ->
+  let isp := new_item_space s k a in let e' := ems_at (pack_item s k a) j in
+  (exists i, nth i (ems_mask s) false = true /\ e' = nth i (ems s) sp0 /\ sp_intersect isp e' = false) \/
+  (exists i d, nth i (ems_mask s) false = true /\ sp_intersect isp (nth i (ems s) sp0) = true /\
+               e' = hyper d isp (nth i (ems s) sp0) /\ sp_empty e' = false).
+Proof. exact (pack_item_ems_origin n m s k a j). Qed.
 Print Assumptions C09_BinPack_legal_step_fields.
+Print Assumptions C09_BinPack_new_ems_origin.
 (* buffer of ONE slot, container 2x2x2, item 1x1x1: the three new EMSs (x >= 1, y >= 1, z >= 1) are written one over the other
    into slot 0; the first two are lost although the docstring says the ones that do not fit are ignored *)
 Example C09_BinPack_full_buffer_overwrites_slot0 :
   let s0 := fst (init 1 (make_container 2 2 2) 1 [mkIt 1 1 1] [true]) in
   let s1 := fst (step 1 false s0 0 0) in
   ems s0 = [mkSp 0 2 0 2 0 2] /\ ems s1 = [mkSp 0 2 0 2 1 2] /\ ems_mask s1 = [true] /\ Packing_b s1 = true.
+Proof. vm_compute. repeat split; reflexivity. Qed.
+(* the only EMS after the first step of the example is the x >= 2 cut of the container (the y / z cuts are empty) *)
+Example C09_BinPack_origin_nonvacuous :
+  shape_b 3 4 ex_s0 = true /\ emask_at (pack_item ex_s0 0 0) 0 = true /\ new_item_space ex_s0 0 0 = mkSp 0 2 0 2 0 2
+  /\ ems_at (pack_item ex_s0 0 0) 0 = hyper XU (new_item_space ex_s0 0 0) (nth 0 (ems ex_s0) sp0)
+  /\ ems_at (pack_item ex_s0 0 0) 0 = mkSp 2 4 0 2 0 2 /\ sp_empty (hyper YU (new_item_space ex_s0 0 0) ex_c) = true.
 Proof. vm_compute. repeat split; reflexivity. Qed.
 Example C09_BinPack_nonvacuous :
   ems ex_s1 = [mkSp 2 4 0 2 0 2; sp0; sp0; sp0] /\ ems_mask ex_s1 = [true; false; false; false]
